@@ -177,7 +177,12 @@ def x_deque(e, st, args, kwargs):
     if ml is not None and not isinstance(ml, NoneV):
         mlc = e.pyconst(ml)
         if mlc is None:
-            raise Unsupported("deque with symbolic maxlen on the meta level (use a symbolic ring shape)")
+            if items:
+                raise Unsupported("deque with symbolic maxlen and initial content")
+            s1, ref = e.make_symdeque(st, e.fresh("deque"), ml)
+            ex = s1.obj(ref).extra
+            yield s1.assume(ex["lo"] == ex["hi"]), ref
+            return
     yield st.alloc(Obj(None, "deque", None, list(items or []), {"maxlen": mlc}))
 
 
@@ -195,7 +200,8 @@ def install_default_models(e):
     e.axioms.append(z3.And(sin(z3.RealVal(0)) == 0, cos(z3.RealVal(0)) == 1))
     e.opaque_handlers.update({"lock": h_lock, "rlock": h_lock, "logger": h_logger, "event": h_event,
                               "link_layer": h_link_layer, "callback": h_callback, "timer": h_timer,
-                              "thread": h_thread, "cbf_buffer": make_keyed_map_handler(_fresh_timer)})
+                              "thread": h_thread, "cbf_buffer": make_keyed_map_handler(_fresh_timer),
+                              "loc_t": make_keyed_map_handler(_fresh_any)})
     e.external_handlers.update({
         "threading.Lock": x_lock, "threading.RLock": x_lock, "threading.Event": x_event, "threading.Timer": x_timer,
         "threading.Thread": x_thread,
@@ -312,6 +318,10 @@ def make_keyed_map_handler(fresh_value):
         else:
             raise Unsupported(f"keyed map .{name}")
     return h
+
+
+def _fresh_any(e, st):
+    return st, Opaque("object", _ident(e, "object", "map_value"))
 
 
 def _fresh_timer(e, st):
